@@ -98,3 +98,12 @@ emit("F13-decorated-unprovided-key","C16","C04.should-succeed",h,"Decorate(func(
 # F14: a decorator result tagged flatten is accepted; the [][]T it returns is then delivered to consumers of []T
 h=H(); h.provide(0,[],["V0@g1"]); h.decorate(0,[],["V1"],inv="decorate-flatten-group"); h.invoke(0,["V0@g1"])
 emit("F14-decorate-flatten-group","C14","C14.panic",h,"Decorate accepts a result field [][]T tagged group:\"g,flatten\"; the next Invoke consuming []T of that group panics (reflect.Set: value of type [][]T is not assignable to type []T)")
+# F15: an optional dependency hides an error RETURNED by a constructor (or decorator) when that error wraps a dig
+# "missing dependencies" error of another container (sub-container pattern): Invoke succeeds with a zero value
+h=H(); h.provide(0,[],["V0"],err=True,faults={"1":"digerr"}); h.provide(0,["V0?"],["V1"]); h.invoke(0,["V1"])
+emit("F15a-optional-hides-constructor-error","C07","C07.failure-hidden",h,"constructor returns an error wrapping another container's missing-dependencies error; its optional consumer gets the zero value and Invoke returns nil",kind="hist:faults")
+h=H(); h.provide(0,[],["V0"]); h.decorate(0,["V0"],["V0"],err=True,faults={"1":"digerr"}); h.provide(0,["V0"],["V2"]); h.provide(0,["V2?"],["V1"]); h.invoke(0,["V1"])
+emit("F15b-optional-hides-decorator-error","C07","C07.failure-hidden",h,"decorator returns an error wrapping another container's missing-dependencies error; an optional edge above its consumer swallows the failure and Invoke returns nil",kind="hist:faults")
+# F16 (known, not repaired): RootCause looks through a user error that wraps a foreign dig error
+h=H(); h.provide(0,[],["V0"],err=True,faults={"1":"digerr"}); h.invoke(0,["V0"])
+emit("F16-rootcause-through-user-error","C13","C13.rootcause-nested-dig-error",h,"constructor returns an error wrapping another container's dig error: RootCause(err) is the foreign error's root cause, not the constructor's error",kind="hist:faults")
